@@ -1,0 +1,179 @@
+//! Verification hooks (feature `verif`): drop-in stand-ins for the shared-state primitives used by
+//! the operators. Every access first calls the installed hook, then delegates to the real
+//! primitive. With no hook installed they are pass-through.
+#![allow(missing_docs)]
+
+use std::{
+    panic::Location,
+    sync::{atomic::Ordering, Arc, RwLock},
+};
+
+#[derive(Clone, Copy, Debug, PartialEq, Eq)]
+pub enum Access {
+    Load,
+    Store,
+    Rmw,
+}
+
+pub type Hook = Arc<dyn Fn(&'static Location<'static>, Access) + Send + Sync>;
+
+static HOOK: RwLock<Option<Hook>> = RwLock::new(None);
+
+pub fn set_hook(hook: Option<Hook>) {
+    *HOOK.write().unwrap() = hook;
+}
+
+#[track_caller]
+fn hook(access: Access) {
+    let location = Location::caller();
+    let hook = HOOK.read().unwrap().clone();
+    if let Some(hook) = hook {
+        hook(location, access);
+    }
+}
+
+#[derive(Debug, Default)]
+pub struct AtomicBool(std::sync::atomic::AtomicBool);
+
+impl AtomicBool {
+    pub fn new(v: bool) -> Self {
+        Self(std::sync::atomic::AtomicBool::new(v))
+    }
+    #[track_caller]
+    pub fn load(&self, order: Ordering) -> bool {
+        hook(Access::Load);
+        self.0.load(order)
+    }
+    #[track_caller]
+    pub fn store(&self, v: bool, order: Ordering) {
+        hook(Access::Store);
+        self.0.store(v, order)
+    }
+}
+
+#[derive(Debug, Default)]
+pub struct AtomicUsize(std::sync::atomic::AtomicUsize);
+
+impl AtomicUsize {
+    pub fn new(v: usize) -> Self {
+        Self(std::sync::atomic::AtomicUsize::new(v))
+    }
+    #[track_caller]
+    pub fn load(&self, order: Ordering) -> usize {
+        hook(Access::Load);
+        self.0.load(order)
+    }
+    #[track_caller]
+    pub fn store(&self, v: usize, order: Ordering) {
+        hook(Access::Store);
+        self.0.store(v, order)
+    }
+    #[track_caller]
+    pub fn fetch_add(&self, v: usize, order: Ordering) -> usize {
+        hook(Access::Rmw);
+        self.0.fetch_add(v, order)
+    }
+    #[track_caller]
+    pub fn fetch_sub(&self, v: usize, order: Ordering) -> usize {
+        hook(Access::Rmw);
+        self.0.fetch_sub(v, order)
+    }
+    #[track_caller]
+    pub fn fetch_update<F>(&self, set: Ordering, fetch: Ordering, f: F) -> Result<usize, usize>
+    where
+        F: FnMut(usize) -> Option<usize>,
+    {
+        hook(Access::Rmw);
+        self.0.fetch_update(set, fetch, f)
+    }
+}
+
+pub struct ArcSwapOption<T>(arc_swap::ArcSwapOption<T>);
+
+impl<T> Default for ArcSwapOption<T> {
+    fn default() -> Self {
+        Self(Default::default())
+    }
+}
+
+impl<T> From<Option<Arc<T>>> for ArcSwapOption<T> {
+    fn from(v: Option<Arc<T>>) -> Self {
+        Self(arc_swap::ArcSwapOption::from(v))
+    }
+}
+
+impl<T> ArcSwapOption<T> {
+    #[track_caller]
+    pub fn load(&self) -> arc_swap::Guard<Option<Arc<T>>> {
+        hook(Access::Load);
+        self.0.load()
+    }
+    #[track_caller]
+    pub fn load_full(&self) -> Option<Arc<T>> {
+        hook(Access::Load);
+        self.0.load_full()
+    }
+    #[track_caller]
+    pub fn store(&self, v: Option<Arc<T>>) {
+        hook(Access::Store);
+        self.0.store(v)
+    }
+    #[track_caller]
+    pub fn swap(&self, v: Option<Arc<T>>) -> Option<Arc<T>> {
+        hook(Access::Rmw);
+        self.0.swap(v)
+    }
+}
+
+pub struct ArcSwap<T>(arc_swap::ArcSwap<T>);
+
+impl<T: Default> Default for ArcSwap<T> {
+    fn default() -> Self {
+        Self(Default::default())
+    }
+}
+
+impl<T> ArcSwap<T> {
+    pub fn from_pointee(v: T) -> Self {
+        Self(arc_swap::ArcSwap::from_pointee(v))
+    }
+    #[track_caller]
+    pub fn load(&self) -> arc_swap::Guard<Arc<T>> {
+        hook(Access::Load);
+        self.0.load()
+    }
+    #[track_caller]
+    pub fn load_full(&self) -> Arc<T> {
+        hook(Access::Load);
+        self.0.load_full()
+    }
+    #[track_caller]
+    pub fn store(&self, v: Arc<T>) {
+        hook(Access::Store);
+        self.0.store(v)
+    }
+    #[track_caller]
+    pub fn swap(&self, v: Arc<T>) -> Arc<T> {
+        hook(Access::Rmw);
+        self.0.swap(v)
+    }
+    /// `rcu` spelled out as load / compute / compare-and-swap with a hook call before each
+    /// shared access, so that the window inside it can be scheduled.
+    #[track_caller]
+    pub fn rcu<R, F>(&self, mut f: F) -> Arc<T>
+    where
+        F: FnMut(&Arc<T>) -> R,
+        R: Into<Arc<T>>,
+    {
+        loop {
+            hook(Access::Load);
+            let cur = self.0.load_full();
+            let new: Arc<T> = f(&cur).into();
+            hook(Access::Rmw);
+            let prev = self.0.compare_and_swap(&cur, new);
+            if Arc::ptr_eq(&prev, &cur) {
+                return cur;
+            }
+        }
+    }
+}
